@@ -144,7 +144,7 @@ def plan(tier, seed):
     if tier == 'quick':
         sizes = {'gen': (90000, 8), 'op': (30000, 3), 'meth': (20000, 2),
                  'out': (30000, 3)}
-        secs = 35
+        secs = 32
     else:
         sizes = {'gen': (5000000, 9), 'op': (1500000, 3), 'meth': (800000, 2),
                  'out': (1200000, 2)}
